@@ -398,6 +398,8 @@ class Response:
             self.sock.sendfile(respiter.filelike, offset=offset, count=nbytes)
             if self.is_chunked():
                 self.sock.sendall(b"\r\n")
+            # these body bytes count like those that go through write()
+            self.sent += nbytes
 
         os.lseek(fileno, offset, os.SEEK_SET)
 
